@@ -4,6 +4,7 @@ import (
 	"time"
 
 	"verifharness/mon"
+	"verifharness/sim"
 )
 
 func init() { register("C11", "exploration", checkC11) }
@@ -18,7 +19,8 @@ func checkC11(run *mon.Run, rng *mon.Rand, thorough bool) {
 	steps := pick(thorough, 250, 500)
 	for h := 0; h < hist && !run.TooMany(); h++ {
 		r := rng.Split()
-		cfg := WorldCfg{Bridges: 2 + r.Intn(2), Steps: steps, Periods: []time.Duration{3 * time.Second, 20 * time.Second, time.Hour},
+		cfg := WorldCfg{Bridges: 2 + r.Intn(2), Steps: steps, Periods: []time.Duration{3 * time.Second, 20 * time.Second, time.Hour, 1500 * time.Millisecond},
+			StartTime: sim.GenesisTime.Add(time.Duration(r.Intn(1_000_000_000))), TimeSteps: []time.Duration{1, 999_999_999, 500 * time.Millisecond},
 			Weights: map[string]int{"propose": 40, "delete": 25, "advance": 20, "role": 5, "deposit": 3, "finalize": 5, "create": 1}}
 		w := newL1World(run, r, MonSet{C11: true}, cfg)
 		w.Run()
